@@ -39,7 +39,9 @@ def keep(r):
         return "-r5m" in name
     if sel == "round6":
         return "-r6m" in name
-    return not name.startswith("refactor-") and not any(t in name for t in ("-r2m", "-r3m", "-r4m", "-r5m", "-r6m"))
+    if sel == "round7":
+        return "-r7m" in name
+    return not name.startswith("refactor-") and not any(t in name for t in ("-r2m", "-r3m", "-r4m", "-r5m", "-r6m", "-r7m"))
 if sel == "refactor":
     print("| refactoring | change (behaviour preserving; the suite passes) | checks that raise an alarm |")
 else:
